@@ -86,6 +86,70 @@ variant!(run_val_tracked_u32, "K=u32,V=TVal", u32, TVal, |id| id, |_s| TVal::new
 variant!(run_key_tracked_str, "K=TKey,V=&str", TKey, &'static str, |id| TKey::new(id, 0), |_s| "v", |k: &TKey| k.id);
 variant!(run_both_tracked, "K=TKey,V=TVal", TKey, TVal, |id| TKey::new(id, 0), |_s| TVal::new(0), |k: &TKey| k.id);
 
+/// Accounting against the public `entry_size` for key/value types with unusual layout (narrow pairs whose size is not a
+/// multiple of 8, over-aligned u128, zero-sized values, arrays): C02's identity and C10's thresholds are about
+/// `entry_size(key, value)` for whatever K and V are.
+macro_rules! layout_variant {
+    ($fname:ident, $label:expr, $K:ty, $V:ty, $mk_k:expr, $mk_v:expr) => {
+        pub fn $fname(rng: &mut Rng, out: &mut RunOut) {
+            let mk_k: fn(u32) -> $K = $mk_k; let mk_v: fn(u32) -> $V = $mk_v;
+            let e = lru_mem::entry_size(&mk_k(0), &mk_v(0));
+            let log = vec![format!("{} entry_size={}", $label, e)];
+            let mut bad = |prop: &'static str, sig: &str, msg: String, out: &mut RunOut| {
+                *out.viol_counts.entry(prop).or_insert(0) += 1;
+                if out.failures.iter().filter(|f| f.prop == prop && f.sig == sig).count() < 3 {
+                    let cfg = HistCfg { hk: 4, cap0: None, max: 0, universe: 0, events: 0, extreme: false };
+                    out.failures.push(Failure { prop, sig: sig.to_string(), msg, cfg, ops: log.clone(), at: 0, inject: None, rerun: true });
+                }
+            };
+            // thresholds of C10 with the public figure
+            for (limit, fits) in [(e - 1, false), (e, true)] {
+                let mut c: LruCache<$K, $V> = LruCache::new(limit);
+                let r = c.insert(mk_k(1), mk_v(1)).is_ok();
+                let mut c2: LruCache<$K, $V> = LruCache::new(limit);
+                let r2 = c2.try_insert(mk_k(1), mk_v(1)).is_ok();
+                out.stats.eval("C10", mix(&[7100, fits as u64, $label.len() as u64, e as u64]));
+                if r != fits || r2 != fits { bad("C10", "layout-threshold", format!("{}: entry_size = {}, limit {}: insert accepted = {}, try_insert accepted = {}, expected {}", $label, e, limit, r, r2, fits), out); }
+            }
+            {   // two entries fit a limit of exactly 2 x entry_size; a third needs an eviction
+                let mut c: LruCache<$K, $V> = LruCache::new(2 * e);
+                let a = c.try_insert(mk_k(1), mk_v(1)).is_ok(); let b = c.try_insert(mk_k(2), mk_v(2)).is_ok(); let third = c.try_insert(mk_k(3), mk_v(3)).is_ok();
+                if !a || !b || third || c.len() != 2 { bad("C10", "layout-threshold", format!("{}: limit 2 x {}: try_insert results {}/{}/{} (expected ok/ok/rejected)", $label, e, a, b, third), out); }
+                if c.current_size() != 2 * e { bad("C02", "layout-sum", format!("{}: two entries held, current_size() = {}, 2 x entry_size = {}", $label, c.current_size(), 2 * e), out); }
+            }
+            // a short random history with the sum identity after every step
+            let n = rng.range(3, 9) as u32;
+            let mut c: LruCache<$K, $V> = LruCache::new(e * rng.range(1, 6) + rng.usize_below(e));
+            for _ in 0..rng.range(10, 60) {
+                let id = rng.below(n as u64 + 2) as u32;
+                match rng.below(6) { 0..=2 => { let _ = c.insert(mk_k(id), mk_v(id)); } 3 => { let _ = c.remove(&mk_k(id)); } 4 => { let _ = c.try_insert(mk_k(id), mk_v(id)); } _ => { let m = c.current_size() / 2 + e; c.set_max_size(m); } }
+                out.stats.events += 1;
+                let sum: u128 = c.iter().map(|(k, v)| lru_mem::entry_size(k, v) as u128).sum();
+                out.stats.eval("C02", mix(&[7200, c.len().min(8) as u64, $label.len() as u64]));
+                out.stats.count("c02_layout_events");
+                if c.current_size() as u128 != sum || c.current_size() > c.max_size() { bad("C02", "layout-sum", format!("{}: current_size() = {}, sum of entry_size over the {} entries = {}, max_size() = {}", $label, c.current_size(), c.len(), sum, c.max_size()), out); break; }
+            }
+        }
+    };
+}
+layout_variant!(lay_u8_u8, "K=u8,V=u8", u8, u8, |i| i as u8, |i| i as u8);
+layout_variant!(lay_u16_u16, "K=u16,V=u16", u16, u16, |i| i as u16, |i| i as u16);
+layout_variant!(lay_bool_u8, "K=u8,V=bool", u8, bool, |i| i as u8, |i| i % 2 == 0);
+layout_variant!(lay_u32_unit, "K=u32,V=()", u32, (), |i| i, |_| ());
+layout_variant!(lay_u128_u64, "K=u128,V=u64", u128, u64, |i| i as u128, |i| i as u64);
+layout_variant!(lay_u128_u128, "K=u128,V=u128", u128, u128, |i| i as u128, |i| i as u128);
+layout_variant!(lay_pair_u8, "K=(u32,u32),V=u8", (u32, u32), u8, |i| (i, i), |i| i as u8);
+layout_variant!(lay_u64_arr3, "K=u64,V=[u8;3]", u64, [u8; 3], |i| i as u64, |i| [i as u8; 3]);
+layout_variant!(lay_u128_vecstring, "K=u128,V=Vec<String>", u128, Vec<String>, |i| i as u128, |_| vec![String::new()]);
+
+pub fn run_layouts(seed: u64, rounds: u64, out: &mut RunOut) {
+    let mut rng = Rng::new(seed ^ 0x1a10);
+    for _ in 0..rounds {
+        lay_u8_u8(&mut rng, out); lay_u16_u16(&mut rng, out); lay_bool_u8(&mut rng, out); lay_u32_unit(&mut rng, out); lay_u128_u64(&mut rng, out);
+        lay_u128_u128(&mut rng, out); lay_pair_u8(&mut rng, out); lay_u64_arr3(&mut rng, out); lay_u128_vecstring(&mut rng, out);
+    }
+}
+
 pub fn run_typevar(seed: u64, budget_events: u64, out: &mut RunOut) {
     let mut rng = Rng::new(seed);
     while out.stats.events < budget_events {
